@@ -7,6 +7,7 @@ import (
 	"fmt"
 	"io"
 	"net"
+	"net/url"
 	"os"
 	"runtime"
 	"sort"
@@ -111,6 +112,14 @@ func c07Arg(class string) string {
 		return "r\u00e9sum\u00e9\r\nInjected: 1"
 	case "long":
 		return strings.Repeat("L", 6000)
+	case "len266": // lengths whose big-endian bytes contain 0x0A / 0x0D: they are bytes of a length-prefixed encoding
+		return strings.Repeat("m", 266)
+	case "len269":
+		return strings.Repeat("m", 269)
+	case "len2570":
+		return strings.Repeat("m", 2570)
+	case "len13":
+		return strings.Repeat("m", 13)
 	}
 	return "plainvalue"
 }
@@ -182,7 +191,10 @@ func c07Hostile(class string) [][]byte {
 		"X-Forwarded-Proto": {"", "https,http", "HTTPS", "javascript", strings.Repeat("s", 500)},
 		"If-None-Match":     {"", "*", "W/", "W/\"", "\"", "\"\"", ",", "W/\"a\",,\"b\"", strings.Repeat("\"x\",", 300), "\"unterminated"},
 		"If-Modified-Since": {"", "yesterday", "Mon, 99 Jan 9999 99:99:99 GMT", strings.Repeat("1", 200)},
-		"Cache-Control":     {"", "no-cache", "NO-CACHE", "no-cache=", ",no-cache", "no-cachex", strings.Repeat("a,", 300)},
+		// (sent together with If-None-Match, as a revalidating client does: Fresh / Stale look at Cache-Control only then)
+		"Cache-Control": {"", "no-cache", "NO-CACHE", "no-cache=", ",no-cache", "no-cachex", strings.Repeat("a,", 300), "no-cachex, no-cachey", "xno-cache,yno-cache",
+			"no-cache=\"a\", no-cache=\"b\"", "x-no-cache, no-cache", "no-cache, no-cache", "max-age=0, no-cache", "no-cacheno-cacheno-cache", "private, no-cache=\"set-cookie\", no-cachez, no-cache",
+			strings.Repeat("no-cachex,", 200), "no-cache\t,\tno-cache", "=no-cache=,=no-cache="},
 		"Content-Type": {"multipart/form-data", "multipart/form-data;", "multipart/form-data; boundary", "multipart/form-data; boundary=", "multipart/form-data; boundary=\"", ";",
 			"application/x-www-form-urlencoded;;;", "application/json; charset", "/", strings.Repeat("a", 600)},
 		"Host":              {"", ".", "a..b.c.d.e", strings.Repeat("a.", 120) + "test", "[::1]", "[::1", "h:1:2", "xn--", "a_b.test", "1.2.3.4", "a.b.c.d.e.f.g.h.i.j.k.l.m.n.test"},
@@ -214,6 +226,9 @@ func c07Hostile(class string) [][]byte {
 				}
 				out = append(out, b.Bytes())
 				continue
+			}
+			if h == "Cache-Control" {
+				b.WriteString("If-None-Match: \"v1\"\r\n")
 			}
 			b.WriteString(h + ": " + v + "\r\nContent-Length: 10\r\n\r\nnot-gzip!!")
 			out = append(out, b.Bytes())
@@ -310,6 +325,12 @@ func TestC07(t *testing.T) {
 				return c.Format(fiber.ResFmt{MediaType: "text/plain", Handler: func(c fiber.Ctx) error { return c.SendString(a) }})
 			case "flash":
 				return c.Redirect().With("k", a).To("/next")
+			case "flashlevel":
+				// every byte value a level can take is a byte of the cookie; two messages so that both spellings of a count occur
+				return c.Redirect().With("k", a, 10).With("l", a, 13).With("m", a, 0x7f).To("/next")
+			case "flashinput":
+				// what the client sent comes back in the cookie
+				return c.Redirect().WithInput().To("/next")
 			case "sendstring":
 				return c.SendString(a)
 			}
@@ -351,6 +372,14 @@ func TestC07(t *testing.T) {
 		req := c07Request(cs.First)
 		if cs.First == "ok" && cs.Helper != "" {
 			req = []byte("GET /ok HTTP/1.1\r\nHost: w.test\r\nX-Helper: " + cs.Helper + "\r\nX-Arg: " + cs.Arg + "\r\n\r\n")
+			if cs.Helper == "flashinput" {
+				// the text comes from the client: as a query parameter, percent-encoded
+				text := c07Arg(cs.Arg)
+				if len(text) > 3000 {
+					text = text[:3000] // the request line has to fit the read buffer (4096)
+				}
+				req = []byte("GET /ok?old=" + url.QueryEscape(text) + " HTTP/1.1\r\nHost: w.test\r\nX-Helper: " + cs.Helper + "\r\nX-Arg: " + cs.Arg + "\r\n\r\n")
+			}
 			if cs.Arg != "plain" {
 				nHostileArg++
 			}
@@ -394,7 +423,7 @@ func TestC07(t *testing.T) {
 					okStatus, second = true, f.Second
 				}
 			}
-			if cs.First == "ok" && (cs.Helper == "redirect" || cs.Helper == "flash") {
+			if cs.First == "ok" && (cs.Helper == "redirect" || cs.Helper == "flash" || cs.Helper == "flashlevel" || cs.Helper == "flashinput") {
 				okStatus, second = resp.Status == 303 || resp.Status == 302, 200 // the redirect helpers set their own status
 			}
 			if !okStatus {
